@@ -135,3 +135,172 @@ Print Assumptions C06_reopened_pointers_resolve.
 Print Assumptions C06_reopened_gap_free.
 Print Assumptions C06_committed_headers_retrievable.
 Print Assumptions C06_continuation_reaches_tip.
+
+(** * C06_keys_* — the byte-level contract of the datastore layout (also serving C04)
+
+    The theorems above speak about a datastore with ABSTRACT keys (hash id / height / head / tail)
+    and abstract values.  Model/Keys.v models the bytes: Hash.String / MarshalJSON / UnmarshalJSON
+    with encoding/hex.Decode, strconv.FormatUint, datastore.NewKey (path.Clean of a rooted path),
+    the namespace prefix, store/keys.go, the batch of Store.flush and init's reading of the head
+    pointer.  Strings are [list byte] with the 256-constructor [byte], so "for every byte string"
+    carries no side condition.  Tied to the code by the extra driver harness/keys (TestKeys):
+    real header.Hash methods, real datastore.NewKey, and a real store.Store over a recording
+    datastore whose recorded keys and values are compared byte by byte. *)
+From GH Require Import Model.Keys Proofs.KeysP Oracle.Keys.
+
+(** the pointer codec round-trips: what writeHeaderHashTo stores, readByKey decodes to the same hash *)
+Theorem C06_keys_pointer_round_trip : forall h : bytes, unmarshal_json (marshal_json h) = DOk h.
+Proof. exact pointer_round_trip. Qed.
+
+(** UnmarshalJSON is total (four outcomes, no panic: [dres]) and accepts EXACTLY a double quote,
+    pairs of hex digits of either case ([from_hex] = reverseHexTable), a double quote; the result
+    is the bytes the pairs spell *)
+Theorem C06_keys_decode_accepts_exactly : forall d h,
+  unmarshal_json d = DOk h <-> exists s, d = dq :: s ++ [dq] /\ hexpairs s h.
+Proof. exact unmarshal_ok_iff. Qed.
+
+(** ... equivalently: accepted iff the independent recogniser [wf_ptr] of the oracle says so
+    (length >= 2, quoted, an even number of characters in between, all of them hex digits);
+    everything else — odd length, a non-hex byte, missing quotes, length < 2 — is rejected *)
+Theorem C06_keys_decode_accepts_iff_wellformed : forall d,
+  (exists h, unmarshal_json d = DOk h) <-> wf_ptr d = true.
+Proof. exact unmarshal_accepts_iff_wf. Qed.
+
+(** what decode accepts beyond the encoder's output (lower-case digits) is harmless: upper-cased,
+    every accepted input IS the canonical encoding of its result, and decodes to the same bytes *)
+Theorem C06_keys_decode_case_insensitive : forall d h,
+  unmarshal_json d = DOk h ->
+  map to_upper d = marshal_json h /\ unmarshal_json (map to_upper d) = DOk h.
+Proof. exact unmarshal_canonical. Qed.
+
+(** hashKey is injective on ALL byte strings (the empty hash gets the root key) *)
+Theorem C06_keys_hash_key_injective : forall h1 h2 : bytes, hash_key h1 = hash_key h2 -> h1 = h2.
+Proof. exact hash_key_inj. Qed.
+
+(** heightKey is injective — decimal printing is injective on all of N (no enumeration, no bound;
+    FormatUint only ever sees n < 2^64) *)
+Theorem C06_keys_height_key_injective : forall n m : N, height_key n = height_key m -> n = m.
+Proof. exact height_key_inj. Qed.
+
+(** the pointer keys differ from each other, from every hash key and from every height key *)
+Theorem C06_keys_pointer_keys_disjoint :
+  head_key <> tail_key /\
+  (forall h : bytes, hash_key h <> head_key /\ hash_key h <> tail_key) /\
+  (forall n : N, height_key n <> head_key /\ height_key n <> tail_key).
+Proof. exact (conj head_tail_differ (conj hash_key_not_ptr height_key_not_ptr)). Qed.
+
+(** a hash key equals a height key ONLY IF the hash is non-empty, at most 10 bytes long, and its hex
+    form consists of decimal digits only (it is then the decimal print of that height) *)
+Theorem C06_keys_hash_height_collision_only_if : forall (h : bytes) (n : N),
+  n < two64 -> hash_key h = height_key n ->
+  h <> [] /\ hash_string h = dec n /\ (length h <= 10)%nat /\ forallb is_dec_digit (hash_string h) = true.
+Proof. exact hash_height_collision. Qed.
+
+(** ... and such short hashes really collide: the hash [0x12] and the height 12 share the key
+    "/12" (the index write of the same batch then overwrites the header: the driver's `collide`
+    cases observe a Store that can no longer start).  Real header hashes (32 bytes) are outside
+    this region. *)
+Theorem C06_keys_disjoint_for_all_hashes_refuted :
+  exists (h : bytes) (n : N), n < two64 /\ hash_key h = height_key n /\ hash_safe h = false.
+Proof. exact (ex_intro _ [Byte.x12] (ex_intro _ 12 (conj eq_refl short_hash_collides))). Qed.
+
+(** the exact condition under which hash keys and height keys are disjoint — which is what
+    justifies the abstract keys of Model/Store.v: the hash is longer than 10 bytes, or its hex form
+    contains a letter ([hash_safe]) *)
+Theorem C06_keys_safe_hash_never_collides : forall (h : bytes) (n : N),
+  hash_safe h = true -> n < two64 -> hash_key h <> height_key n.
+Proof. exact hash_safe_no_collision. Qed.
+
+(** refinement, keys: over a hash table [tbl : id -> bytes] that is injective and [hash_safe] on
+    the ids in use [D], the byte form of the abstract keys (under any namespace prefix that is a
+    key, i.e. starts with a slash) is injective: the byte-level datastore and the four abstract
+    components of Model/Store.v are in bijection on the keys the Store writes *)
+Theorem C06_keys_enc_key_injective : forall (p' : bytes) (tbl : N -> bytes) (D : N -> Prop),
+  (forall i j, D i -> D j -> tbl i = tbl j -> i = j) ->
+  (forall i, D i -> hash_safe (tbl i) = true) ->
+  forall k1 k2, key_ok D k1 -> key_ok D k2 ->
+  enc_key (slash :: p') tbl k1 = enc_key (slash :: p') tbl k2 -> k1 = k2.
+Proof. exact enc_key_inj. Qed.
+
+(** refinement, contents: replaying ANY prefix of ANY write log of the abstract model as byte-level
+    Puts / Deletes ([bapply]: header bytes under the hash key, raw hash under the height key, JSON
+    pointers under head / tail) yields a byte-level datastore that holds, under the byte form of
+    every abstract key, exactly the encoding of what the abstract image ([image], the object of the
+    crash theorems above) holds there *)
+Theorem C06_keys_image_refines : forall (p' : bytes) (tbl : N -> bytes) (D : N -> Prop),
+  (forall i j, D i -> D j -> tbl i = tbl j -> i = j) ->
+  (forall i, D i -> hash_safe (tbl i) = true) ->
+  forall (enc_hdr : hdr -> bytes) b log k,
+  Forall (Forall (w1_ok tbl D enc_hdr)) log ->
+  repr p' tbl D enc_hdr (image b log k) (fold_left (bapply p' tbl enc_hdr) (firstn k log) []).
+Proof. exact image_refines. Qed.
+
+(** refinement, Start: on a byte-level datastore representing [s], init's reading of the head
+    pointer ([start_head]: Get, UnmarshalJSON, Get by hash key, Delete of a dangling pointer)
+    computes what the abstract [read_head] does: no pointer / dropped pointer / Head set, and the
+    datastore it leaves represents [read_head s] *)
+Theorem C06_keys_start_head_refines : forall (p' : bytes) (tbl : N -> bytes) (D : N -> Prop),
+  (forall i j, D i -> D j -> tbl i = tbl j -> i = j) ->
+  (forall i, D i -> hash_safe (tbl i) = true) ->
+  forall (enc_hdr : hdr -> bytes) decodes s m,
+  repr p' tbl D enc_hdr s m -> pend_i s = ∅ ->
+  (forall id, d_head s = Some id -> D id) ->
+  (forall id h, d_hdr s !! id = Some h -> decodes (enc_hdr h) = true) ->
+  let '(r, m') := start_head decodes (slash :: p') m in
+  repr p' tbl D enc_hdr (read_head s) m' /\
+  r = match d_head s with
+      | None => SNoPointer
+      | Some id => match d_hdr s !! id with Some _ => SHead (tbl id) | None => SDropped end
+      end /\
+  (forall id h, r = SHead (tbl id) -> D id -> d_hdr s !! id = Some h -> headp (read_head s) = Some h).
+Proof. exact start_head_refines. Qed.
+
+(** the oracle of the keys driver is tied to the model: the model's own answers pass [okKeys] *)
+Theorem C06_keys_oracle_tie :
+  (forall h, okKeys (KStr h (hash_string h) (marshal_json h)) = true) /\
+  (forall d, okKeys (KUnm d (unmarshal_json d)) = true) /\
+  (forall s, okKeys (KKey s (new_key s)) = true) /\
+  (forall p' h n bin, n < two64 -> hash_safe h = true -> kh_decodes bin = true -> forall t,
+     let '(l, o) := model_store (slash :: p') h n bin t in okKeys (KStore (slash :: p') h n bin t l o) = true).
+Proof. exact (conj model_ok_str (conj model_ok_unm (conj model_ok_key model_ok_store))). Qed.
+
+(** non-vacuity: concrete bytes *)
+Example C06_keys_examples :
+  hash_key (B [171; 205]) = B [47; 65; 66; 67; 68] /\                       (* "/ABCD" *)
+  height_key 18446744073709551615 = B [47; 49;56;52;52;54;55;52;52;48;55;51;55;48;57;53;53;49;54;49;53] /\
+  hash_key [] = B [47] /\ ns_key default_prefix (hash_key []) = default_prefix /\
+  marshal_json (B [171; 205]) = B [34; 65; 66; 67; 68; 34] /\
+  unmarshal_json (B [34; 97; 98; 67; 100; 34]) = DOk (B [171; 205]) /\   (* "abCd" *)
+  unmarshal_json (B [34; 97; 98; 67; 34]) = DErrLen /\
+  unmarshal_json (B [34; 97; 103; 34]) = DErrByte (Nb 103) /\
+  unmarshal_json (B [34]) = DErrQuote /\
+  hash_safe (B [18]) = false /\ hash_safe (B [26]) = true.
+Proof. vm_compute. repeat split; reflexivity. Qed.
+
+(** non-vacuity of the refinement hypotheses: an injective, safe hash table exists
+    (11 zero bytes followed by one byte per unit of the id ... here: ids 0..255) *)
+Example C06_keys_table_exists :
+  let tbl := fun i : N => B [0;0;0;0;0;0;0;0;0;0;0] ++ [Nb i] in
+  let D := fun i : N => i < 256 in
+  (forall i j, D i -> D j -> tbl i = tbl j -> i = j) /\ (forall i, D i -> hash_safe (tbl i) = true).
+Proof.
+  split.
+  - intros i j Hi Hj H. apply app_inv_head in H. injection H as H.
+    rewrite <- (bN_Nb i Hi), <- (bN_Nb j Hj), H. reflexivity.
+  - intros i Hi. reflexivity.
+Qed.
+
+Print Assumptions C06_keys_pointer_round_trip.
+Print Assumptions C06_keys_decode_accepts_exactly.
+Print Assumptions C06_keys_decode_accepts_iff_wellformed.
+Print Assumptions C06_keys_decode_case_insensitive.
+Print Assumptions C06_keys_hash_key_injective.
+Print Assumptions C06_keys_height_key_injective.
+Print Assumptions C06_keys_pointer_keys_disjoint.
+Print Assumptions C06_keys_hash_height_collision_only_if.
+Print Assumptions C06_keys_disjoint_for_all_hashes_refuted.
+Print Assumptions C06_keys_safe_hash_never_collides.
+Print Assumptions C06_keys_enc_key_injective.
+Print Assumptions C06_keys_image_refines.
+Print Assumptions C06_keys_start_head_refines.
+Print Assumptions C06_keys_oracle_tie.
